@@ -49,6 +49,7 @@ CONSTANTS
   QMax = {qmax}
   PayloadSel = {payloads}
   ChildMax = {childmax}
+  TsigSel = {tsigsel}
 INVARIANT Emit
 CHECK_DEADLOCK FALSE
 """
@@ -64,7 +65,7 @@ def tset(xs):
 def gen_cfg(ctx, name, **kw):
     d = dict(opcodes=tset([0]), maxrecs=2, names=tset([2, 3, 4]), targets=tset([2, 4]), kinds=tset(["A", "NS"]),
              forms=tset(ALL_FORMS), edns=tset(["off"]), rcodes=tset([0]), bits=tset([256]), origins=tset([False]),
-             ttls="TtlOne", txt=tset([]), txtn=tset([1]), big=tset([]), ids=tset([4660]), pads=tset([0]), zcls=tset([1]), maxes=tset([65535]), optidx=tset([0]), secs=tset([1, 2, 3]), qsel=tset([True, False]), qmax=1, payloads=tset([70000]), childmax=0)
+             ttls="TtlOne", txt=tset([]), txtn=tset([1]), big=tset([]), ids=tset([4660]), pads=tset([0]), zcls=tset([1]), maxes=tset([65535]), optidx=tset([0]), secs=tset([1, 2, 3]), qsel=tset([True, False]), qmax=1, payloads=tset([70000]), childmax=0, tsigsel=tset([False]))
     d.update(kw)
     return ctx.cfg(name, GEN_CFG.format(**d))
 
@@ -174,7 +175,7 @@ def run(ctx):
                 continue
             seen.add(key)
             i = len(seen)
-            if s[0]["max"] != 65535:
+            if s[0]["max"] != 65535 or s[0].get("tsig"):
                 jobs.append(("s%d.low" % i, s, "low"))      # Message.to_wire clamps the limit to >= 512
                 continue
             jobs.append(("s%d.direct" % i, s, "direct", key in varkeys))
